@@ -38,7 +38,7 @@ func sameRecvNamed(fn *types.Func, name string) bool {
 
 // failoverPolicy inlines every method of the sibling's own type and unexported package-level helpers, so that
 // extracting or merging helpers does not change what the rules see.
-func failoverPolicy(typeName string) pw.Policy {
+func failoverPolicy(typeName string, isFrontend func(token.Pos) bool) pw.Policy {
 	return pw.Policy{
 		Inline: func(fn *types.Func, depth int) bool {
 			if sameRecvNamed(fn, typeName) {
@@ -49,9 +49,9 @@ func failoverPolicy(typeName string) pw.Policy {
 				return true
 			}
 			// methods of unexported helper types declared with the frontend (a key-lock table owning the map and its mutex, …)
-			return frontendHelperMethod(fn)
+			return frontendHelperMethod(fn, isFrontend)
 		},
-		SpawnDeclared: func(fn *types.Func) bool { return sameRecvNamed(fn, typeName) || frontendHelperMethod(fn) },
+		SpawnDeclared: func(fn *types.Func) bool { return sameRecvNamed(fn, typeName) || frontendHelperMethod(fn, isFrontend) },
 		// TTL(ctx) is not a function of ctx alone inside Get: the builder may lower the cell in between (WithTTL(ctx, ttl, true)),
 		// so two reads of it are two values
 		Pure:     func(fn *types.Func) bool { return pw.FuncName(fn) != "cache.TTL" && basePure(fn) },
@@ -128,17 +128,7 @@ func (c *Ctx) failover(name string) *FO {
 		fo.Err = fmt.Errorf("anchor %s.Get does not resolve", name)
 		return fo
 	}
-	if frontendFiles == nil {
-		files := map[string]bool{}
-		for _, sib := range siblings {
-			if _, fn := c.funcDecl(sib + ".Get"); fn != nil {
-				files[c.Pkg.Fset.Position(fn.Pos()).Filename] = true
-			}
-		}
-		fset := c.Pkg.Fset
-		frontendFiles = func(p token.Pos) bool { return files[fset.Position(p).Filename] }
-	}
-	fo.E = pw.New(c.Pkg, failoverPolicy(name))
+	fo.E = pw.New(c.Pkg, failoverPolicy(name, c.frontendFiles()))
 	fo.Paths, fo.Err = fo.E.Run(fo.Fn)
 	if fo.Err != nil {
 		return fo
@@ -176,7 +166,7 @@ func (c *Ctx) failover(name string) *FO {
 
 // frontendHelperMethod: fn is a method of an unexported named type declared in one of the files that declare the Failover
 // frontends (recognised by the declaration site of the receiver type, kept by the rules context).
-func frontendHelperMethod(fn *types.Func) bool {
+func frontendHelperMethod(fn *types.Func, isFrontend func(token.Pos) bool) bool {
 	sig, _ := fn.Type().(*types.Signature)
 	if sig == nil || sig.Recv() == nil {
 		return false
@@ -186,14 +176,28 @@ func frontendHelperMethod(fn *types.Func) bool {
 		t = p.Elem()
 	}
 	nt, ok := t.(*types.Named)
-	if !ok || nt.Obj().Exported() || frontendFiles == nil {
+	if !ok || nt.Obj().Exported() || isFrontend == nil {
 		return false
 	}
-	return frontendFiles(nt.Obj().Pos())
+	return isFrontend(nt.Obj().Pos())
 }
 
-// frontendFiles reports whether a position lies in a file declaring Failover.Get / FailoverOf.Get; set by Ctx.failover.
-var frontendFiles func(token.Pos) bool
+// frontendFiles reports whether a position lies in a file declaring Failover.Get / FailoverOf.Get (per analysed package: the
+// thorough tier analyses many variants, each with its own file set, in one process).
+func (c *Ctx) frontendFiles() func(token.Pos) bool {
+	if c.frontendFn != nil {
+		return c.frontendFn
+	}
+	files := map[string]bool{}
+	for _, sib := range siblings {
+		if _, fn := c.funcDecl(sib + ".Get"); fn != nil {
+			files[c.Pkg.Fset.Position(fn.Pos()).Filename] = true
+		}
+	}
+	fset := c.Pkg.Fset
+	c.frontendFn = func(p token.Pos) bool { return files[fset.Position(p).Filename] }
+	return c.frontendFn
+}
 
 func klTypeOf(sib string) string {
 	if sib == "FailoverOf" {
